@@ -63,13 +63,23 @@ inductive Key
   | add (a b : R)
 deriving DecidableEq, Repr
 
+/-- variants of the code the translator recognises in mir.c (the code as it is = the defaults;
+the other values are the candidate fixes in /verif/fixes) -/
+structure Opts where
+  /-- round the running size before every consolidated alloca (see `consolidateLoop`) -/
+  always : Bool := false
+  /-- `MULO`/`MULOS x, 1` are rows of the algebraic shortcut -/
+  muloRow : Bool := true
+  /-- `make_one_ret` collects the values of several `ret`s in fresh temporaries -/
+  freshRets : Bool := false
+deriving Repr, DecidableEq
+
 structure St where
   vn : List (Key × Nat) := []
   next : Nat := 0
   /-- next fresh label -/
   lab : Nat := 0
-  /-- `true`: round the running size before every consolidated alloca (see `consolidateLoop`) -/
-  always : Bool := false
+  opts : Opts := {}
 
 def vnFind (vn : List (Key × Nat)) (k : Key) : Option Nat :=
   match vn with
@@ -311,13 +321,13 @@ def aopShortcut : AOp → Option Int
 
 /-- (destination, first source, the row's constant, second source) when the opcode is a row;
 `MULO`/`MULOS` are rows too -/
-def shortcutConst : SInsn → Option (Opd R × Opd R × Int × Opd R)
+def shortcutConst (muloRow : Bool) : SInsn → Option (Opd R × Opd R × Int × Opd R)
   | .bin a _ d x y => (aopShortcut a).map fun c => (d, x, c, y)
-  | .ovf .mul _ d x y => some (d, x, 1, y)
+  | .ovf .mul _ d x y => if muloRow then some (d, x, 1, y) else none
   | _ => none
 
-def shortcutApplies (i : SInsn) : Option (Opd R × Opd R) :=
-  match shortcutConst i with
+def shortcutApplies (muloRow : Bool) (i : SInsn) : Option (Opd R × Opd R) :=
+  match shortcutConst muloRow i with
   | some (d, x, c, .imm v) => if v = BitVec.ofInt 64 c then some (d, x) else none
   | _ => none
 
@@ -399,7 +409,7 @@ def loopStep (L : Loop) (cur : SInsn) (rest : List SInsn) : Loop × List SInsn :
     match cur with
     | .alloca d (.imm v) =>
       let (size, align) := allocaSizeAlign v.toInt
-      let (fin, rest') := consolidateAllocas st.always d size align rest
+      let (fin, rest') := consolidateAllocas st.opts.always d size align rest
       (Insn.alloca d (immI fin), rest')
     | c => (c, rest)
   let full := L.out.reverse ++ cur :: rest
@@ -443,7 +453,7 @@ def loopStep (L : Loop) (cur : SInsn) (rest : List SInsn) : Loop × List SInsn :
       done { L with out := is.reverse ++ L.out, used := used, st := st } rest
   | none =>
     -- (b) algebraic shortcuts
-    match shortcutApplies cur with
+    match shortcutApplies L.st.opts.muloRow cur with
     | some (d, x) => if opEq d x then done L rest else done L (.mov d x :: rest)
     | none =>
       let (cur, used) := canonLabels full cur L.used
@@ -493,16 +503,37 @@ def replaceRets (retOps : List (Opd R)) (lab : Lab) : List SInsn → List SInsn
   | .ret vs :: tl => zipMov retOps vs ++ .jmp lab :: replaceRets retOps lab tl
   | i :: tl => i :: replaceRets retOps lab tl
 
+/-- candidate fix: every result first goes to a fresh temporary (moves in front of the label), the
+extension reads that temporary; temporaries are created result by result (fresh, then extension) -/
+def extResultsFresh (st : St) : List Ty → List (Opd R) → List SInsn × List SInsn × List (Opd R) × List (Opd R) × St
+  | t :: ts, v :: vs =>
+    let (f, st) := newTemp st
+    match extOfTy t with
+    | some (k, sg) =>
+      let (r, st) := newTemp st
+      let (ms, is, fs, os, st) := extResultsFresh st ts vs
+      (.mov (.reg f) v :: ms, .ext k sg (.reg r) (.reg f) :: is, .reg f :: fs, .reg r :: os, st)
+    | none =>
+      let (ms, is, fs, os, st) := extResultsFresh st ts vs
+      (.mov (.reg f) v :: ms, is, .reg f :: fs, .reg f :: os, st)
+  | _, vs => ([], [], vs, vs, st)
+
 def makeOneRet (st : St) (resTys : List Ty) (nrets : Nat) (l : List SInsn) : List SInsn × St :=
   match splitLastRet l with
   | none => (l, st)
   | some (before, vs, after) =>
     let (lab?, st) := if nrets > 1 then (some st.lab, { st with lab := st.lab + 1 }) else (none, st)
-    let (exts, vs', st) := extResults st resTys vs
-    let mid := (match lab? with | some x => [Insn.label x] | none => []) ++ exts ++ [.ret vs']
     match lab? with
-    | some x => (replaceRets vs x before ++ mid ++ after, st)
-    | none => (before ++ mid ++ after, st)
+    | some x =>
+      if st.opts.freshRets then
+        let (movs, exts, fresh, vs', st) := extResultsFresh st resTys vs
+        (replaceRets fresh x before ++ movs ++ [Insn.label x] ++ exts ++ [.ret vs'] ++ after, st)
+      else
+        let (exts, vs', st) := extResults st resTys vs
+        (replaceRets vs x before ++ [Insn.label x] ++ exts ++ [.ret vs'] ++ after, st)
+    | none =>
+      let (exts, vs', st) := extResults st resTys vs
+      (before ++ exts ++ [.ret vs'] ++ after, st)
 
 /-! ## whole function -/
 
@@ -540,9 +571,9 @@ def argExts : List (String × Ty) → List SInsn → List SInsn
     | some (k, sg) => argExts tl (.ext k sg (.reg (.user r)) (.reg (.user r)) :: acc)
     | none => argExts tl acc
 
-def simplifyFunc (always : Bool) (f : Func String) : Func R :=
+def simplifyFunc (opts : Opts) (f : Func String) : Func R :=
   let body0 := argExts f.params [] ++ f.body.map liftInsn
-  let st : St := { lab := maxLabel body0, always := always }
+  let st : St := { lab := maxLabel body0, opts := opts }
   let L := loopRun (64 * body0.length + 1024) { st := st } body0
   let body1 := L.out.reverse
   let (body2, _) := makeOneRet L.st f.res L.rets body1
